@@ -340,6 +340,16 @@ pub fn run(case: &Case) -> Outcome {
                         (R_YIELD, _) => pause(),
                         (R_SLEEP, _) => sleep_ns(op.1 as u64 * 1000),
                         (R_DROP, Some(_)) => {
+                            // aimed (op.1 = k > 0): a few schedule points after sender k-1 has
+                            // entered its op number op.2 >> 8 - the drop then lands between the
+                            // steps of that send (check of the port flag / push / wake-up)
+                            if op.1 > 0 && n_senders > 0 {
+                                states.wait_reached((op.1 as usize - 1) % n_senders, (op.2 >> 8) as usize);
+                                let d = (op.2 & 0xff) as u64 * 100;
+                                if d > 0 {
+                                    sleep_ns(d);
+                                }
+                            }
                             let c = log.call(ai, i, R_DROP);
                             drop(rxg.rx.take());
                             log.ret(c, OK, 0);
@@ -619,7 +629,7 @@ pub fn strategy(g: &GenCfg, bias: u8) -> BoxedStrategy<Case> {
                 1 => (1u32..4).prop_map(|ms| Op(R_TIMED, ms, 0)),
                 1 => Just(Op(R_YIELD, 0, 0)),
                 1 => (1u32..1500).prop_map(|us| Op(R_SLEEP, us, 0)),
-                1 => Just(Op(R_DROP, 0, 0)),
+                1 => prop_oneof![1 => Just(Op(R_DROP, 0, 0)), 3 => (1u32..4, 0u32..4, 0u32..12).prop_map(|(k, idx, d)| Op(R_DROP, k, (idx << 8) | d))],
             ]
             .boxed()
         } else {
